@@ -29,6 +29,11 @@ def rand_dep(rng, ids, nested_dep=False):
     n = ids.next("x")[:-1]
     d = {"k": "dep", "name": rng.choice(["da", "db", "dc", "dd"] if rng.random() < 0.9 else ["R&D", "a<b", "x>y", "q&amp;r"]),
          "version": rng.choice(["1.0", "1.9", "1.10", "2.0.1"]), "_mark": n}
+    if rng.random() < 0.08:
+        # versions with a pre-release / post-release / development / local part, each under a name of its own (their order
+        # relative to other versions is not at stake here): listed and written exactly as str(version)
+        d["version"] = rng.choice(["3.0rc1", "1.2.post3", "1.0.dev2", "0.9+local.7", "2.0a1", "1!2.0", "4.1b2.post1"])
+        d["name"] = "pre" + "".join(ch for ch in d["version"] if ch.isalnum())
     if rng.random() < 0.15:
         d["sub"] = True
     if rng.random() < 0.15:
@@ -123,6 +128,8 @@ def rand_case(rng, nested=False):
         for j in range(rng.choice([55, 90, 140])):
             d_ = rand_dep(rng, ids)
             d_["name"] = "many%02d" % (j % 47)
+            if not d_["version"].replace(".", "").isdigit():
+                d_["version"] = "1.0"    # (a renamed dependency shares its name with others: plain versions only, see rand_dep)
             kids.insert(rng.randint(0, len(kids)), d_ if j % 3 else gen.TAG("div", d_, via_fn=False))
     if nested:
         kids.insert(rng.randint(0, len(kids)), rand_dep(rng, ids, nested_dep=True))
@@ -191,7 +198,7 @@ def rand_case(rng, nested=False):
         cand = [i for i, c in enumerate(content) if c["k"] == "tag" and c["name"] not in ("script", "style", "head", "html", "title") and c["name"] not in gen.VOID]
         if cand:
             grow = {"at": rng.choice(cand), "dep": rand_dep(rng, ids), "render_first": rng.random() < 0.5}
-    return {"shape": shape, "content": content, "json_mode": rng.random() < 0.1, "prior_document": rng.choice([0, 0, 0, 1, 2]), "grow": grow, "late": late_pair + late_sibs + [rand_body_node(rng, ids, 1) for _ in range(n_late)], "kw": kw,
+    return {"shape": shape, "content": content, "json_mode": rng.random() < 0.1, "prior_document": rng.choice([0, 0, 0, 1, 2]), "grow": grow, "refused_append": rng.random() < 0.2, "late": late_pair + late_sibs + [rand_body_node(rng, ids, 1) for _ in range(n_late)], "kw": kw,
             "lib_prefix": rng.choice(["lib", "lib", None, "", "a/b", "/", "//", "lib/", "/static", "//cdn.example/x", ".", "../up", "with space"]), "include_version": rng.random() < 0.7, "late_together": rng.random() < 0.5}
 
 
@@ -237,6 +244,15 @@ def check_case(ctx, case):
         ctx.count("documents_whose_content_grew_after_hand_over")
     if late and case.get("render_before_append", True):
         doc.render()  # an earlier rendering must not influence the one after append()
+    if case.get("refused_append"):
+        # an append that is refused (an invalid child among valid ones) is not an append: nothing of it is in the document
+        for bad_args in ((ht.div("refused-1", ht.HTMLDependency("refused-dep", "1.0", script={"src": "refused.js"})), ht.head_content(ht.tags.title("refused head")), 1j),
+                         ("refused text", object()), (["refused in a list", {"not": "a child"}],)):
+            try:
+                doc.append(*bad_args)
+            except TypeError:
+                pass
+        ctx.count("refused_appends")
     if case.get("late_together") and late:
         doc.append(*[gen.build(c) for c in late])
     else:
